@@ -33,7 +33,9 @@ def _table_job(st):
     w2 = wn / wd
     mesh = np.array(st["mesh"], dtype=float)
     F = np.array(st["forces"], dtype=float)
-    surf = tube_surface(mesh, w2)
+    # the transfer kernels do not depend on whether the mesh is one half of a symmetric surface: every state with both flags in turn
+    sym = bool(sum(len(str(v)) for v in c.values()) % 2)
+    surf = tube_surface(mesh, w2, sym=sym)
     bad = []
     loads = run_comp(LoadTransfer(surface=surf), {"def_mesh": mesh, "sec_forces": F}, ["loads"])["loads"]
     if not _close(loads[:, :3], np.array(st["lf2"]) / 2.0):
@@ -50,9 +52,11 @@ def _table_job(st):
     disp = np.zeros((ny, 6))
     disp[:, :3] = np.array(st["u"], dtype=float)
     tm = np.array(st["tm"], dtype=float)
-    dm = run_comp(DisplacementTransfer(surface=surf), {"mesh": mesh, "disp": disp, "transformation_matrix": tm, "nodes": nodes}, ["def_mesh"])["def_mesh"]
-    if not _close(dm, np.array(st["defd"]) / wd):
-        bad.append("table:DisplacementTransfer")
+    for sy in (False, True):
+        dm = run_comp(DisplacementTransfer(surface=tube_surface(mesh, w2, sym=sy)), {"mesh": mesh, "disp": disp, "transformation_matrix": tm, "nodes": nodes}, ["def_mesh"])["def_mesh"]
+        if not _close(dm, np.array(st["defd"]) / wd):
+            bad.append("table:DisplacementTransfer")
+            break
     # structure of the transformation matrix: evaluate the spec's symbolic entries with real cos/sin
     rng = np.random.default_rng(hash(json.dumps(c, sort_keys=True)) % (2**31))
     ang = rng.uniform(-0.3, 0.3, size=(ny, 3))
@@ -86,10 +90,10 @@ def _random_job(k):
     wingbox = k % 4 == 3
     if wingbox:
         ux, uy, lx, ly = B.wingbox_airfoil()
-        surf = tube_surface(mesh, w2, fem_model_type="wingbox", data_x_upper=ux, data_y_upper=uy, data_x_lower=lx, data_y_lower=ly)
+        surf = tube_surface(mesh, w2, sym=bool((k // 2) % 2), fem_model_type="wingbox", data_x_upper=ux, data_y_upper=uy, data_x_lower=lx, data_y_lower=ly)
         w2 = float(np.real((ux[0] * (uy[0] - ly[0]) + ux[-1] * (uy[-1] - ly[-1])) / ((uy[0] - ly[0]) + (uy[-1] - ly[-1]))))
     else:
-        surf = tube_surface(mesh, w2)
+        surf = tube_surface(mesh, w2, sym=bool((k // 2) % 2))  # the modelled half of a symmetric surface, or a surface of its own
     bad = []
     loads = run_comp(LoadTransfer(surface=surf), {"def_mesh": mesh, "sec_forces": F}, ["loads"])["loads"]
     mpf = run_comp(MeshPointForces(surfaces=[surf]), {"wing_sec_forces": F}, ["wing_mesh_point_forces"])["wing_mesh_point_forces"]
@@ -132,7 +136,7 @@ def _random_job(k):
     pred = mesh + eps * np.cross(th[None, :, :], mesh - nodes[None, :, :])
     if not (np.max(np.abs(r - pred)) <= 10 * eps**2 * L * float(np.max(np.abs(th))) ** 2 + 1e-15 * L):
         bad.append("random:DisplacementTransfer:rotation_first_order")
-    return {"k": k, "bad": bad, "case": {"nx": nx, "ny": ny, "shape": shape, "w2": w2, "wingbox": wingbox}}
+    return {"k": k, "bad": bad, "case": {"nx": nx, "ny": ny, "shape": shape, "w2": w2, "wingbox": wingbox, "symmetry": surf["symmetry"]}}
 
 
 def run(tier, only=None):
